@@ -78,6 +78,12 @@ def assemble(repo, layout_path):
             if got != want.split(","):
                 raise Undecided("struct %s in %s has fields %s, shim expects %s (hidden state?)" % (name, rel, got, want))
             log.append("fields %s ok" % name)
+        elif cmd == "variants":
+            name, rel, want = rest.split()
+            got = Source(repo, rel).enum_variants(name)
+            if got != want.split(","):
+                raise Undecided("enum %s in %s has variants %s, shim expects %s" % (name, rel, got, want))
+            log.append("variants %s ok" % name)
         elif cmd == "item":
             kind, name, rel = rest.split()
             funcs.append(emit_item(em, repo, rel, kind, name, log))
